@@ -102,7 +102,7 @@ class CFG:
         """
         if self._generating_symbols is None:
             self._generating_symbols = self._get_generating_or_nullable(False)
-        return self._generating_symbols
+        return self._generating_symbols.copy()
 
     def _get_generating_or_nullable(self, nullable=False):
         """ Merge of nullable and generating """
@@ -251,7 +251,7 @@ class CFG:
         """
         if self._nullable_symbols is None:
             self._nullable_symbols = self._get_generating_or_nullable(True)
-        return self._nullable_symbols
+        return self._nullable_symbols.copy()
 
     def remove_epsilon(self) -> "CFG":
         """ Removes the epsilon of a cfg
